@@ -2,6 +2,7 @@
 
   * American pitch notation (output and input), semitone distance, ordering of pitches      -> Pitch.tla, Trace_Pitch
   * the page index of bounding boxes                                                          -> Queries!PageIndex, Trace_Session (end.page_index)
+  * the graph export (ranks, edges, node labels up to renaming)                                -> Queries!GraphRanks/GraphEdges/GraphLabels, Trace_Session (graph.*)
 A deviation here is reported as EXTRA-DEVIATION (never as a VIOLATION of a property) and the command always exits 0 unless the
 machinery itself fails.  Known deviations of the unchanged tree are listed in KNOWN below.
 """
@@ -66,6 +67,15 @@ def records():
     return recs
 
 
+def sess_extras(seed):
+    from .. import session
+    r, lines, types = dp.make_doc(seed, 'main')
+    evs, doc, text = session.record_import(lines)
+    if doc is not None:
+        evs.append(session.record_call(doc, {'op': 'graph', 'args': {}}))
+    return dp.finish_session(lines, evs, text, seed, dp.features(lines))
+
+
 def main():
     t0 = time.time()
     recs = records()
@@ -82,17 +92,20 @@ def main():
             else:
                 dev.append(r)
     # page index: recorded imports with bounding boxes
-    sess = docs.build_sessions(dp.sess_c03, [4242000 + i for i in range(200)])
+    sess = docs.build_sessions(sess_extras, [4242000 + i for i in range(200)])
     vs, tl2 = tlc.validate_traces('Trace_Session', [s['log'] for s in sess])
     npage = sum(1 for s in sess for e in s['log'] if e['ev'] == 'end' and e['obs']['pages'])
     pdev = [s['text'] for s, v in zip(sess, vs) if any(c == 'end.page_index' for _, c in v.fails)]
+    gdev = [(s['text'], c) for s, v in zip(sess, vs) for _, c in v.fails if c.startswith('graph.')]
+    for t, c in gdev[:5]:
+        print('EXTRA-DEVIATION:', c, 'of', repr(t[:200]))
     for r in dev[:10]:
         print('EXTRA-DEVIATION:', {k: (uncps(v) if isinstance(v, list) and v and isinstance(v[0], int) else v) for k, v in r.items()})
     for t in pdev[:5]:
         print('EXTRA-DEVIATION: page index of', repr(t[:200]))
     for k, n in known.items():
         print(f'EXTRA-KNOWN: {k} x{n}: {KNOWN[k]}')
-    out = {'records': len(recs), 'deviations': len(dev), 'known_deviations': known, 'documents_with_page_boxes': npage, 'page_index_deviations': len(pdev),
+    out = {'records': len(recs), 'deviations': len(dev), 'known_deviations': known, 'documents_with_page_boxes': npage, 'page_index_deviations': len(pdev), 'graph_exports': len(sess), 'graph_deviations': len(gdev),
            'states': sum(t.distinct for t in tl + tl2), 'wall_s': round(time.time() - t0, 1)}
     os.makedirs(os.path.join(VERIF, 'evidence'), exist_ok=True)
     with open(os.path.join(VERIF, 'evidence', 'extras.json'), 'w') as f:
